@@ -721,4 +721,42 @@ def moveToFull (d : Disk) (src : Nat) : Bool × Disk :=
     let r := copyToFull d src
     if r.1 then remove r.2 src else (false, r.2)
 
+/-! ## reading with the stream operators: `File::operator>>(int&)`, `File::operator>>(String&)` -/
+
+/-- the value of bytes stored least significant first (what `read(&x, 4)` leaves in an `x` that was 0, on this
+    little-endian host; fewer than four bytes read leave the high bytes 0) -/
+def leVal (bs : Bytes) : Nat := bs.foldr (fun b a => b.toNat + 256 * a) 0
+
+/-- a 32-bit pattern as the `int` it is -/
+def toI32 (n : Nat) : Int := if n % 4294967296 < 2147483648 then (n % 4294967296 : Nat) else (n % 4294967296 : Nat) - 4294967296
+
+/-- `int n = 0; *this >> n;` = `read(&n, sizeof(n))` in native byte order (`_endian` left at `ENDIAN_NATIVE`) -/
+def readI32 (s : RStream) : Int × RStream :=
+  let r := fread 4 s
+  (toI32 (leVal r.1), r.2)
+
+/-- the loop of `File::operator>>(String& x)` with a `blk`-byte buffer:
+    `while (n > 0) { m = read(buf, n < sizeof(buf) ? n : sizeof(buf)); if (m <= 0) break; x.append(buf, m); n -= m; }` -/
+def shrLoop (blk : Nat) (s : RStream) (n : Nat) (acc : Bytes) : Bytes × RStream :=
+  if hn : n = 0 then (acc, s)
+  else
+    if hm : (fread (min n blk) s).1.length = 0 then (acc, (fread (min n blk) s).2)
+    else shrLoop blk (fread (min n blk) s).2 (n - (fread (min n blk) s).1.length) (acc ++ (fread (min n blk) s).1)
+termination_by n
+decreasing_by omega
+
+/-- `File::operator>>(String& x)`: the length as an int32, then that many bytes in `blk`-byte reads; a negative length
+    reads nothing, a length beyond the end of the file gives the bytes that are there -/
+def readStr (blk : Nat) (s : RStream) : Bytes × RStream :=
+  let r := readI32 s
+  shrLoop blk r.2 r.1.toNat []
+
+/-- `f >> x` (String) through an open object: on a stream that cannot be read the length read fails (error indicator set),
+    `n` stays 0, the string is empty -/
+def hreadStr (blk : Nat) (h : Handle) : Bytes × Handle :=
+  if h.sm.canRead then
+    let r := readStr blk h.rs
+    (r.1, { h with rs := r.2 })
+  else ([], { h with err := true })
+
 end AslModel.FileText
